@@ -228,9 +228,20 @@ whose rows differ. -/
 def diffRows (f t : List (Int × Row)) : List DiffRow :=
   (unionKeys ltInt (keys f) (keys t)).filterMap (fun k => diffKey k (get f k) (get t k))
 
-/-- Do two stored rows with different layouts count as different?  dolt compares the stored tuples,
+/-- one key of the diff of two tables with different column lists: dolt compares the stored tuples,
 so after a column was added at the end (NULL in every old row) an untouched row is equal, while a
-dropped column rewrites every row.  Modelled as: compare over the *union* layout. -/
+dropped column rewrites every row.  Modelled as: compare over the *union* layout `u`. -/
+def diffKeyU (fc tc u : List Col) (k : Int) (f t : Option Row) : Option DiffRow :=
+  match f, t with
+  | none, none => none
+  | none, some tr => some ⟨k, .added, none, some tr⟩
+  | some fr, none => some ⟨k, .removed, some fr, none⟩
+  | some fr, some tr =>
+    if projRow fc u fr = projRow tc u tr then none else some ⟨k, .modified, some fr, some tr⟩
+
+/-- the union layout of two column lists: the from-columns, then the new to-columns -/
+def unionCols (fc tc : List Col) : List Col := fc ++ tc.filter (fun c => !(fc.contains c))
+
 def diffTables (f t : Option Table) : List DiffRow :=
   match f, t with
   | none, none => []
@@ -239,15 +250,8 @@ def diffTables (f t : Option Table) : List DiffRow :=
   | some ft, some tt =>
     if ft.cols = tt.cols then diffRows ft.rows tt.rows
     else
-      let u := ft.cols ++ tt.cols.filter (fun c => !(ft.cols.contains c))
       (unionKeys ltInt (keys ft.rows) (keys tt.rows)).filterMap (fun k =>
-        match get ft.rows k, get tt.rows k with
-        | none, none => none
-        | none, some tr => some ⟨k, .added, none, some tr⟩
-        | some fr, none => some ⟨k, .removed, some fr, none⟩
-        | some fr, some tr =>
-          if projRow ft.cols u fr = projRow tt.cols u tr then none
-          else some ⟨k, .modified, some fr, some tr⟩)
+        diffKeyU ft.cols tt.cols (unionCols ft.cols tt.cols) k (get ft.rows k) (get tt.rows k))
 
 /-! ## patches: `dolt_patch(a, b)` as a statement list, and its execution -/
 
@@ -310,41 +314,57 @@ def dropCell : List Col → Row → String → Row
   | c :: cs, v :: vs, name => if c.name = name then vs else v :: dropCell cs vs name
   | _, r, _ => r
 
-/-- execution of one statement on a root; `none` = the statement fails (table / column / key
-missing or duplicated) -/
-def execStmt (r : Root) : Stmt → Option Root
-  | .createTable n cols => if has r n then none else some (putTable r n ⟨cols, []⟩)
-  | .dropTable n => if has r n then some (del r n) else none
-  | .addCol n c =>
-    match get r n with
+/-- the table a statement addresses -/
+def stmtTable : Stmt → String
+  | .createTable n _ | .dropTable n | .addCol n _ | .dropCol n _ | .insert n _ _ | .update n _ _ | .delete n _ => n
+
+def applySets (cols : List Col) (row : Row) (sets : List (String × Val)) : Row :=
+  sets.foldl (fun acc s => setCell cols acc s.1 s.2) row
+
+/-- execution of one statement on the table it addresses (`none` inside = the table is absent);
+outer `none` = the statement fails (table / column / key missing or duplicated) -/
+def execT (tb : Option Table) : Stmt → Option (Option Table)
+  | .createTable _ cols => match tb with | some _ => none | none => some (some ⟨cols, []⟩)
+  | .dropTable _ => match tb with | some _ => some none | none => none
+  | .addCol _ c =>
+    match tb with
     | some tb =>
       if tb.cols.any (fun c' => c'.name = c.name) then none
-      else some (putTable r n ⟨tb.cols ++ [c], tb.rows.map (fun kr => (kr.1, kr.2 ++ [Val.null]))⟩)
+      else some (some ⟨tb.cols ++ [c], tb.rows.map (fun kr => (kr.1, kr.2 ++ [Val.null]))⟩)
     | none => none
-  | .dropCol n cn =>
-    match get r n with
+  | .dropCol _ cn =>
+    match tb with
     | some tb =>
       if tb.cols.any (fun c' => c'.name = cn) then
-        some (putTable r n ⟨tb.cols.filter (fun c' => c'.name ≠ cn), tb.rows.map (fun kr => (kr.1, dropCell tb.cols kr.2 cn))⟩)
+        some (some ⟨tb.cols.filter (fun c' => c'.name ≠ cn), tb.rows.map (fun kr => (kr.1, dropCell tb.cols kr.2 cn))⟩)
       else none
     | none => none
-  | .insert n k row =>
-    match get r n with
+  | .insert _ k row =>
+    match tb with
     | some tb =>
       if has tb.rows k || row.length ≠ tb.cols.length then none
-      else some (putTable r n ⟨tb.cols, putRow tb.rows k row⟩)
+      else some (some ⟨tb.cols, putRow tb.rows k row⟩)
     | none => none
-  | .update n k sets =>
-    match get r n with
+  | .update _ k sets =>
+    match tb with
     | some tb =>
       match get tb.rows k with
-      | some row => some (putTable r n ⟨tb.cols, putRow tb.rows k (sets.foldl (fun acc s => setCell tb.cols acc s.1 s.2) row)⟩)
-      | none => some r        -- UPDATE … WHERE pk = k matches no row: succeeds, changes nothing
+      | some row => some (some ⟨tb.cols, putRow tb.rows k (applySets tb.cols row sets)⟩)
+      | none => some (some tb)    -- UPDATE … WHERE pk = k matches no row: succeeds, changes nothing
     | none => none
-  | .delete n k =>
-    match get r n with
-    | some tb => some (putTable r n ⟨tb.cols, del tb.rows k⟩)
+  | .delete _ k =>
+    match tb with
+    | some tb => some (some ⟨tb.cols, del tb.rows k⟩)
     | none => none
+
+/-- write a table (or its absence) back into a root -/
+def setEntry (r : Root) (n : String) : Option Table → Root
+  | some t => putTable r n t
+  | none => del r n
+
+/-- execution of one statement on a root -/
+def execStmt (r : Root) (s : Stmt) : Option Root :=
+  (execT (get r (stmtTable s)) s).map (setEntry r (stmtTable s))
 
 def exec (ss : List Stmt) (r : Root) : Option Root :=
   ss.foldlM execStmt r
